@@ -372,13 +372,23 @@ static double dbl_of(long long bits_)
 static std::string csv_string(const std::string& s)
 {
 	// alphabet of the property: letters, digits after the first position, blank , ; " ' ; never numeric looking (first char)
-	static const char* first = "abcdefghijklmnopqrstuvwxyzABCDEFGHIJKLMNOPQRSTUVWXYZ ,;\"'_";
-	static const char* rest = "abcdefghijklmnopqrstuvwxyzABCDEFGHIJKLMNOPQRSTUVWXYZ ,;\"'_0123456789.-+";
+	static const char* first = "abcdefghijklmnopqrstuvwxyzABCDEFGHIJKLMNOPQRSTUVWXYZ ,;\"'_%";
+	static const char* rest = "abcdefghijklmnopqrstuvwxyzABCDEFGHIJKLMNOPQRSTUVWXYZ ,;\"'_0123456789.-+%";
 	std::string r;
 	for (unsigned char c : s) {
 		const char* a = r.empty() ? first : rest;
 		r += strchr(a, c) && c ? (char)c : a[c % strlen(a)];
 	}
+	// a '%' is plain text for a CSV cell; sequences that would be a "%n" conversion if the text were ever used as a printf format
+	// are avoided all the same (such a mistake should show as wrong text, not as a wild store)
+	for (size_t i = 0; i < r.size(); i++)
+		if (r[i] == '%') {
+			size_t j = i + 1;
+			while (j < r.size() && strchr(" +-#0123456789.*hlLqjzt'", r[j]))
+				j++;
+			if (j < r.size() && r[j] == 'n')
+				r[j] = 'N';
+		}
 	if (r.size() > 700)
 		r.resize(700);
 	return r;
@@ -625,7 +635,7 @@ static Gen<std::string> valuegen()
 		if (w == 0)
 			return std::string();
 		if (w < 5)
-			return *gen::elementOf(std::vector<std::string>{"1", "white", "3.5", "a b", "x=y", "#no comment", ";semi", "[v]", "a=b=c", "=", "==", "\"quoted\"", "c:\\dir\\f.txt", "a/b", "true", "-1", "[", "]", "a\tb", "a  b"});
+			return *gen::elementOf(std::vector<std::string>{"1", "white", "3.5", "a b", "x=y", "#no comment", ";semi", "[v]", "a=b=c", "=", "==", "\"quoted\"", "c:\\dir\\f.txt", "a/b", "true", "-1", "[", "]", "a\tb", "a  b", "100% done", "5% full", "%s", "%d%%", "%5.2f x", "%"});
 		static const char* a = "abcXYZ019 =#;[]/\\\"'.,:-_\t!$%&()*+<>?@^`{|}~";
 		int n = *vf::irange<int>(1, w < 17 ? 12 : w < 19 ? 80 : 400);
 		std::string s;
@@ -883,8 +893,9 @@ static Gen<vf::Case> csvgen()
 			return std::string();
 		if (w < 6)
 			return *gen::elementOf(std::vector<std::string>{"a", "neg", "pos", "a,b", "a;b", "\"", "\"\"", "a\"", "\"a", "a\"b", "a b", " a", "a ", " ", ",", ";", "'", "a'b", "'a'", "\",\"", "a\",\"b", ",\"", "\",", "x\"\"y", "e5", "E", "a1.5", "n-1",
-			                                                 "a,\"b\",c", " ,", "\" \"", "';'", "a\"\"", "\"\"a"});
-		static const char* a = "abcdeXYZ ,;\"' ,;\"'019.-_";
+			                                                 "a,\"b\",c", " ,", "\" \"", "';'", "a\"\"", "\"\"a", "5% full", "100% done", "%", "%%", "%s", "%d", "% d", "%5", "a%", "%,", "50%;", "\"%d\"", "%5.2f", "x%sy%dz", "100%",
+			                                                 "%c%c", "%ld", "%%d", "%-3s|"});
+		static const char* a = "abcdeXYZ ,;\"' ,;\"'019.-_%%sd";
 		int n = *vf::irange<int>(1, w < 17 ? 8 : 60);
 		if (w == 19 && *vf::irange<int>(0, 2) == 0)
 			n = *gen::oneOf(vf::irange<int>(248, 262), vf::irange<int>(1, 600)); // around the 255/256-byte formatting buffers, and long
@@ -981,6 +992,13 @@ static void classify_csv(const vf::Case& c)
 		st.cls("csv.leading_or_trailing_blank");
 	if (arr)
 		st.cls("csv.row_as_array_var");
+	bool pct = false;
+	for (auto& row : t.rows)
+		for (auto& cell : row)
+			if (cell.type == 2 && cell.s.find('%') != std::string::npos)
+				pct = true;
+	if (pct)
+		st.cls("csv.cell_with_percent_sign");
 	if (t.cfg == 1 && sep)
 		st.cls("csv.config.semicolon_and_decimal_comma.string_cell_with_comma");
 	if (t.cfg == 1 && frac)
